@@ -85,6 +85,9 @@ const (
 	perClass = 3
 )
 
+// current is the Run of this process (for package-level helpers).
+var current *Run
+
 func verifRoot() string {
 	if d := os.Getenv("VERIF_ROOT"); d != "" {
 		return d
@@ -125,6 +128,7 @@ func Start(id, level string) *Run {
 			r.cap = 25 * time.Minute
 		}
 	}
+	current = r
 	if os.Getenv("VERIF_SUPERVISED") == "" && os.Getenv("VERIF_NO_SUPERVISOR") == "" {
 		r.supervise() // runs the check proper as a child process; does not return
 	}
